@@ -2,6 +2,7 @@ package vc
 
 import (
 	"fmt"
+	"os"
 	"go/token"
 	"go/types"
 	"sort"
@@ -63,11 +64,15 @@ func (E *Engine) Encode(name string, level int) *FuncResult {
 			}
 			saved := Solvers
 			Solvers = Solvers[:1]
-			rs := DischargeAll(obls, 3, 16, false)
+			rs := DischargeAll(obls, houdiniTimeout, 16, false)
 			Solvers = saved
 			for _, x := range rs {
 				if x.Status != "discharged" {
 					drop[*x.O.Cand] = true
+					if os.Getenv("VCGO_DEBUG") != "" {
+						fmt.Printf("houdini drop round %d: %s (%s %s) loop%d: %s\n", round, x.O.Name, x.Status, x.Answer, x.O.Cand.Loop, x.O.Cand.C.Src)
+						DumpQuery(x.O, "/verif/work/houdini")
+					}
 				}
 			}
 			if len(drop) == 0 {
@@ -78,6 +83,14 @@ func (E *Engine) Encode(name string, level int) *FuncResult {
 			}
 		}
 		E.candCache[key] = active
+		if os.Getenv("VCGO_DEBUG") != "" {
+			var ks []string
+			for k := range active {
+				ks = append(ks, fmt.Sprintf("loop%d: %s", k.Loop, k.C.Src))
+			}
+			sort.Strings(ks)
+			fmt.Printf("houdini %s: kept %d candidates\n   %s\n", key, len(ks), strings.Join(ks, "\n   "))
+		}
 	}
 	return E.encodeOnce(name, level, active)
 }
@@ -271,3 +284,6 @@ func shortFile(p token.Position) string {
 	f = strings.TrimPrefix(f, "/repo/")
 	return fmt.Sprintf("%s:%d", f, p.Line)
 }
+
+// houdiniTimeout bounds each candidate-invariant query (seconds).
+var houdiniTimeout = 10
